@@ -141,6 +141,20 @@ PROGRAMS = {
             dict(name="m3", deps={"c"}, fail=lambda v: v["c"] > 3, errs=[(("xs",), "m3")]),
         ],
     ),
+    # a validator taking an InitVar parameter, the InitVar known under an alias
+    "initvar": prog(
+        "Vv",
+        [F("a", INT), F("x", INT, initvar=True, alias="y"), F("z", INT, initvar=True, default=V("0"))],
+        "def __post_init__(self, x, z):\n    pass\n"
+        "@validator\ndef i1(self, x):\n    LOG.append('i1')\n    if x > 3:\n        raise ValidationError('i1')\n"
+        "@validator\ndef i3(self, z):\n    LOG.append('i3')\n    if z + self.a > 6:\n        raise ValidationError('i3')\n"
+        + vsrc("i2", "self.a > 3"),
+        [
+            dict(name="i1", deps={"x"}, fail=lambda v: v["x"] > 3, errs=[((), "i1")]),
+            dict(name="i3", deps={"z", "a"}, fail=lambda v: v["z"] + v["a"] > 6, errs=[((), "i3")]),
+            dict(name="i2", deps={"a"}, fail=lambda v: v["a"] > 3, errs=[((), "i2")]),
+        ],
+    ),
     # aggregate fields (pattern properties with a root-level constraint, flattened object) read
     # by class validators: an invalid aggregate is an invalid input of the validator
     "aggr": prog(
